@@ -24,11 +24,12 @@ theorem optimize_some (O : Oracle) (hO : O.PresolveAmbiguous) (l : TL) (obj : Li
 
 /-- `None` only if some behaviour satisfies the contract and the objective is unbounded in the requested direction.
     (Earlier versions needed `l.Proper`; the excluded point `[0 ≤ -1]` was a genuine defect of the code, repaired in
-    `is_polytope_empty`, and the hypothesis is gone.) -/
+    `is_polytope_empty`, and the hypothesis is gone; the proof checks only against the repaired source:
+    `Gen.emptyNoColsBySign = true` by `rfl`.) -/
 theorem optimize_none (O : Oracle) (hO : O.PresolveAmbiguous) (l : TL) (obj : Lin) (mx : Bool)
     (h : optimize O l obj mx = .ok none) :
     (∃ z, TL.holds l z) ∧ ∀ M, ∃ z, TL.holds l z ∧ (if mx then M < evalL obj z else evalL obj z < -M) :=
-  Poly.optimize_none O hO l obj mx h
+  Poly.optimize_none rfl O hO l obj mx h
 
 /-- `ValueError` only if no behaviour satisfies the contract -/
 theorem optimize_err (O : Oracle) (hO : O.PresolveAmbiguous) (l : TL) (obj : Lin) (mx : Bool)
@@ -66,7 +67,7 @@ theorem contract_optimize_none (O : Oracle) (hO : O.PresolveAmbiguous) (c : Cont
     (obj : Lin) (mx : Bool) (h : PolyAlg.optimizeC O c obj mx = .ok none) :
     (∃ z, TL.holds c.a z ∧ TL.holds c.g z) ∧
     ∀ M, ∃ z, TL.holds c.a z ∧ TL.holds c.g z ∧ (if mx then M < evalL obj z else evalL obj z < -M) := by
-  obtain ⟨⟨z, hz⟩, hall⟩ := Poly.optimize_none O hO _ obj mx h
+  obtain ⟨⟨z, hz⟩, hall⟩ := Poly.optimize_none rfl O hO _ obj mx h
   refine ⟨⟨z, (holds_union _ _ z).mp hz⟩, fun M => ?_⟩
   obtain ⟨z', hz', hM⟩ := hall M
   exact ⟨z', ((holds_union _ _ z').mp hz').1, ((holds_union _ _ z').mp hz').2, hM⟩
